@@ -76,7 +76,8 @@ func leapKey(t time.Time) string {
 func c20GPSInstant(c *core.Ctx, t time.Time, tag string) time.Duration {
 	var got time.Duration
 	c.Eval(1)
-	if p, msg := core.Guard(func() { got = gps.Time(t).TimeSinceGPSEpoch() }); p {
+	gt := gps.Time(t)
+	if p, msg := core.Guard(func() { got = gt.TimeSinceGPSEpoch() }); p {
 		c.Violate("C20|gps|panic", "%s", msg)
 		return 0
 	}
@@ -97,7 +98,8 @@ func c20GPSInstant(c *core.Ctx, t time.Time, tag string) time.Duration {
 		z := c20Zones[(zi+k*5)%len(c20Zones)]
 		var gz time.Duration
 		c.Eval(1)
-		core.Guard(func() { gz = gps.Time(t.In(z)).TimeSinceGPSEpoch() })
+		gtz := gps.Time(t.In(z))
+		core.Guard(func() { gz = gtz.TimeSinceGPSEpoch() })
 		if gz != want {
 			c.Violate("C20|gps|forward-in-zone|"+leapKey(t), "TimeSinceGPSEpoch(%s) = %v, but the same instant in UTC (%s) has %v", t.In(z).Format(time.RFC3339Nano), gz, t.Format(time.RFC3339Nano), want)
 		}
